@@ -21,6 +21,7 @@ int main()
     {
         if (line.empty())
             continue;
+        vh::case_alarm(20); // per-case watchdog: a hang is the observation abort:timeout
         auto f = vh::fields(line);
         std::vector<double> data;
         for (auto& p : vh::split(f["pts"], ';'))
